@@ -153,6 +153,15 @@ CHECKS = {
              "B on a fresh object, and each request must carry the key drawn for that connect. Every abnormal ending x 4 cut "
              "positions x compression on/off x 2 canonical B's is enumerated.",
         note="The previous generator is finalised before the next connect(), as persist() does."),
+    "C19": dict(
+        category="fault_enumeration", design_ref="DESIGN.md section 3 / C19",
+        technique="property-based testing + enumeration of proxy replies, cut positions and per-call faults, judged on the ordered log of the simulated proxy socket",
+        text="Proxy configuration shapes (mapping / environment, ws / wss, proxy URL forms), 20 proxy reply classes followed by EOF "
+             "or silence, every cut position and chunk size of two replies (exhaustive), and a fault at each proxy-socket call are "
+             "run; the ordered socket log must show: connect to the proxy's host/port, one CONNECT for exactly host:port, no other "
+             "write before a complete 200 reply has been read, then (only for 200) TLS wrap for wss and the WebSocket GET on the "
+             "same socket with Connected.proxy set; otherwise ConnectFail and no byte of the handshake written.",
+        note="The proxy's reply is complete before tunnelled traffic starts; syntax of Proxy-Authorization is not judged."),
 }
 
 PENDING = {}
